@@ -294,6 +294,8 @@ func Check_RecordOnWaitingFlow() {
 	sx.Assert(a.AggregateMsgByFlowKey(agg.Message(mk[first]())) == nil, "create")
 	active, inactive := ticks("active"), ticks("inactive")
 	sx.Assert(a.VerifSetDeadlines(k.FlowKey(), T0.Add(active), T0.Add(inactive)), "set-deadlines")
+	// earlier expiry scans may already have counted retries for the waiting flow
+	sx.Assert(a.VerifSetFlowState(k.FlowKey(), false, sx.Range("retriesCounted", 0, intermediate.MaxRetries)), "set-state")
 	invariant(a, "pre")
 	second := sx.Choose("secondRecordFrom", 2)
 	sx.Assert(a.AggregateMsgByFlowKey(agg.Message(mk[second]())) == nil, "record")
@@ -310,7 +312,36 @@ func Check_RecordOnWaitingFlow() {
 	}
 }
 
+// Check_RejectedRecord: with statistics aggregation configured, the first
+// record of a flow is rejected (it lacks flowStartSeconds): nothing is held
+// and nothing is scheduled; a later well-formed record of the same key
+// creates exactly one flow with one scheduled entry, exported once.
+func Check_RejectedRecord() {
+	a := agg.New(true)
+	k := agg.Keys[0]
+	bad := rec(k)
+	bad.OmitStart = true
+	err := a.AggregateMsgByFlowKey(agg.Message(bad))
+	items := invariant(a, "after-rejected-record")
+	if err != nil {
+		sx.Assert(len(items) == 0 && a.GetNumFlows() == 0, "rejected-record-left-a-flow-or-a-scheduled-entry")
+		sx.Reach("rejected")
+	}
+	good := rec(k)
+	good.Start, good.End = 1, 2
+	sx.Assert(a.AggregateMsgByFlowKey(agg.Message(good)) == nil, "record")
+	items = invariant(a, "after-record")
+	sx.Assert(len(items) == 1 && a.GetNumFlows() == 1, "one-flow-one-entry")
+	a.VerifShiftDeadlines(-(agg.InactiveTimeout + agg.Tick))
+	n := 0
+	sx.Assert(a.ForAllExpiredFlowRecordsDo(func(intermediate.FlowKey, *intermediate.AggregationFlowRecord) error { n++; return nil }) == nil, "scan")
+	sx.Assert(n == 1, "callback-count-for-one-flow")
+	invariant(a, "after-scan")
+	sx.Reach("recovered")
+}
+
 var Table = map[string]runner.Entry{
+	"Check_RejectedRecord":      {Setup: Setup, Fn: Check_RejectedRecord},
 	"Check_RecordOnWaitingFlow": {Setup: Setup, Fn: Check_RecordOnWaitingFlow},
 	"Check_Step":                {Setup: Setup, Fn: Check_Step},
 }
